@@ -47,7 +47,7 @@ PLANS = {
     "C13": P("exploration", ["small", "small-nosse", "mid"], 48000, 500, ["small", "small-nosse", "mid", "host"], 380000, 1200, shards=15),
     "C14": P("exploration", WRAP, 1500, 100, WRAP + ["small-ts-wrap-strict"], 15000, 100),
     "C17": P("exploration", SEM, 60000, 400, SEM + ["host"], 480000, 1000),
-    "C18": P("exploration", ["small-strict", "small-nosse-strict"], 4500, 300, ["small-strict", "small-nosse-strict"], 36000, 600,
+    "C18": P("exploration", ["small-strict", "small-nosse-strict"], 2000, 300, ["small-strict", "small-nosse-strict"], 36000, 600,
              strict=True, san_to_stderr=True),
     "C19": P("exploration", SEM, 30000, 300, SEM + ["host", "host-nosse"], 240000, 600),
     "C20": P("fault_enumeration", FAULT3, 30, 100, FAULT3, 150, 100, shards=15, strict=True, san_to_stderr=True),
@@ -357,6 +357,14 @@ RULES = {}
 def main():
     if len(sys.argv) >= 3 and sys.argv[1] == "--replay":
         path = os.path.abspath(sys.argv[2])
+        if not path.endswith(".case"):
+            # a saved libFuzzer input: run the fuzz target on it
+            fz = vbuild.build_fuzzer("fz_io", "small-fuzz")
+            env = dict(os.environ, ASAN_OPTIONS="detect_leaks=0:allocator_may_return_null=1", VF_TMP=RUN)
+            os.makedirs(RUN, exist_ok=True)
+            r = subprocess.run([fz, path], env=env)
+            print("replay status:", "pass" if r.returncode == 0 else "fail")
+            sys.exit(0 if r.returncode == 0 else 1)
         cfg = replay_cfg_of(path)
         extra = None
         if cfg.startswith("r-"):
